@@ -109,6 +109,8 @@ pub struct Scenario {
     pub max_rounds: usize,
     /// failures are scripted only once the termination request has been sent
     pub fail_after_term_only: bool,
+    /// twin runs only (never generated, never serialised): scripted completions with these seeds are NOT released
+    pub withhold: Vec<u64>,
 }
 
 const SPECS: &[(&str, &[&str])] = &[
@@ -131,7 +133,7 @@ pub fn gen_scenario(rng: &mut Rng, thorough: bool) -> Scenario {
             target: None, sample_size: 1 + rng.below(3) as usize, spec_yaml: spec.to_string(), guess: None,
             script_seed: rng.next(), term_round: None, fail_permille: 0, rej_permille: *rng.pick(&[0, 50, 200]),
             nonfinite_permille: 0, burst_permille: *rng.pick(&[0, 300]), ignore_abort_permille: *rng.pick(&[0, 1000]),
-            pool: rng.below(7) as u8, max_rounds: rounds, fail_after_term_only: false,
+            pool: rng.below(7) as u8, max_rounds: rounds, fail_after_term_only: false, withhold: vec![],
         };
     }
     if rng.chance(1, 14) {
@@ -143,7 +145,7 @@ pub fn gen_scenario(rng: &mut Rng, thorough: bool) -> Scenario {
             nc: 1 + rng.below(3) as usize, max_eval: None, target: Some(*rng.pick(&[-3.0, -2.0, -4.5])), sample_size: ss,
             spec_yaml: spec.to_string(), guess: None, script_seed: rng.next(), term_round: None, fail_permille: 0,
             rej_permille: *rng.pick(&[0, 50]), nonfinite_permille: 0, burst_permille: *rng.pick(&[0, 300]),
-            ignore_abort_permille: 0, pool: 4, max_rounds: if thorough { 1500 } else { 500 }, fail_after_term_only: false,
+            ignore_abort_permille: 0, pool: 4, max_rounds: if thorough { 1500 } else { 500 }, fail_after_term_only: false, withhold: vec![],
         };
     }
     if rng.chance(1, 16) {
@@ -154,7 +156,7 @@ pub fn gen_scenario(rng: &mut Rng, thorough: bool) -> Scenario {
             nc: 2 + rng.below(5) as usize, max_eval: None, target: None, sample_size: 1, spec_yaml: spec.to_string(), guess: None,
             script_seed: rng.next(), term_round: Some(3 + rng.below(12) as usize), fail_permille: *rng.pick(&[300, 700]), rej_permille: 100,
             nonfinite_permille: *rng.pick(&[0, 200]), burst_permille: *rng.pick(&[0, 300]), ignore_abort_permille: 1000, pool: rng.below(7) as u8,
-            max_rounds: 80, fail_after_term_only: true,
+            max_rounds: 80, fail_after_term_only: true, withhold: vec![],
         };
     }
     let nc = 1 + rng.below(8) as usize;
@@ -185,7 +187,7 @@ pub fn gen_scenario(rng: &mut Rng, thorough: bool) -> Scenario {
         nonfinite_permille: *rng.pick(&[0, 0, 0, 10, 50]),
         burst_permille: *rng.pick(&[0, 200, 600]),
         ignore_abort_permille: *rng.pick(&[0, 0, 500, 1000]),
-        pool, max_rounds, fail_after_term_only: false,
+        pool, max_rounds, fail_after_term_only: false, withhold: vec![],
     }
 }
 
@@ -215,6 +217,7 @@ pub fn scenario_from_json(j: &J) -> Scenario {
         burst_permille: u("burstPermille"), ignore_abort_permille: u("ignoreAbortPermille"), pool: u("pool") as u8,
         max_rounds: u("maxRounds") as usize,
         fail_after_term_only: j["failAfterTermOnly"].as_bool().unwrap_or(false),
+        withhold: vec![],
     }
 }
 
@@ -276,6 +279,8 @@ pub fn run_scenario(sc: &Scenario, sh: Arc<Mutex<Shared>>) -> J {
         let mut counter = 0u64;
         let mut round = 0usize;
         let mut terminated = 0u32;
+        let mut released: Vec<u64> = Vec::new();   // accept/reject completions released by the script, in release order
+        let mut held: Vec<Slot> = Vec::new();      // twin run: completions that are withheld stay in flight for ever
         loop {
             // let the controller run until nothing observable changes any more
             let mut quiet = 0;
@@ -366,7 +371,11 @@ pub fn run_scenario(sc: &Scenario, sh: Arc<Mutex<Shared>>) -> J {
                 match &o {
                     Outcome::Fail(k) => events.push(json!({"k": "c", "seed": slot.seed, "res": {"fail": k}})),
                     Outcome::NonFinite(_) => events.push(json!({"k": "c", "seed": slot.seed, "res": {"fail": 0}})),
-                    _ => { pending.insert(slot.seed, o.clone()); }
+                    _ => {
+                        if sc.withhold.contains(&slot.seed) { held.push(slot); continue; }
+                        released.push(slot.seed);
+                        pending.insert(slot.seed, o.clone());
+                    }
                 }
                 let _ = slot.id;
                 slot.tx.take().unwrap().send(o).ok();
@@ -374,10 +383,31 @@ pub fn run_scenario(sc: &Scenario, sh: Arc<Mutex<Shared>>) -> J {
             round += 1;
         }
         let g = sh2.lock().unwrap();
-        json!({"maxInflight": g.max_inflight, "dupInflight": g.dup_inflight})
+        // completions that were released (the evaluation had finished) but never taken by the controller
+        let undelivered: Vec<u64> = released.iter().filter(|s| pending.contains_key(s)).cloned().collect();
+        drop(held);
+        json!({"maxInflight": g.max_inflight, "dupInflight": g.dup_inflight, "undelivered": undelivered, "returned": result.is_some()})
     });
     let g = sh.lock().unwrap();
     let mut line = json!({"mode": "ctl", "cfg": g.header, "rounds": g.rounds, "stats": ret});
     if g.rounds.iter().any(|r| r.get("stuck").is_some()) { line["stuck"] = json!(true); }
+    line
+}
+
+/// C09: the report is a function of what was DELIVERED.  When a run returned while completions that the script had
+/// released were still undelivered, the scenario is run again with exactly those completions withheld (the
+/// evaluations simply have not finished yet): the delivered results and their order are the same, so the returned
+/// report must be the same.  The second run's return is attached as `twin`.
+pub fn run_scenario_twin(sc: &Scenario, sh: Arc<Mutex<Shared>>) -> J {
+    let mut line = run_scenario(sc, sh);
+    let und: Vec<u64> = line["stats"]["undelivered"].as_array().map(|a| a.iter().filter_map(|x| x.as_u64()).collect()).unwrap_or_default();
+    if !und.is_empty() && line["stats"]["returned"] == json!(true) && sc.withhold.is_empty() {
+        let mut sc2 = sc.clone();
+        sc2.withhold = und.clone();
+        let l2 = run_scenario(&sc2, Arc::new(Mutex::new(Shared::default())));
+        let last = |l: &J| l["rounds"].as_array().and_then(|r| r.last()).map(|r| r["obs"]["ret"].clone()).unwrap_or(J::Null);
+        let items = |l: &J| -> Vec<J> { l["rounds"].as_array().map(|r| r.iter().flat_map(|x| x["obs"]["items"].as_array().cloned().unwrap_or_default()).collect()).unwrap_or_default() };
+        line["twin"] = json!({"withheld": und, "retA": last(&line), "retB": last(&l2), "sameDelivered": items(&line) == items(&l2)});
+    }
     line
 }
